@@ -453,7 +453,7 @@ class ConnectAsync(ConnectOne):
     = input_delays'[src] = connect_interval(src group, dest group) -- the zero delay of that shape, which is
     not greater than any delay already recorded for the pair (so overwriting input_delays keeps the minimum)"""
     target = WORLD + ".connect_async_requests"
-    property_ids = ["C16", "C10", "C01"]
+    property_ids = ["C16", "C10", "C01", "C06"]
     variants = [{}]
     shard_variants = False
 
@@ -508,10 +508,42 @@ class ConnectAsync(ConnectOne):
         return out
 
     def native_search(self, budget):
-        return iter(())
+        for shape in ("both_root", "same_group", "root_to_group"):
+            for earlier in (None, 0, 1, 2):
+                yield {"async_shape": shape, "earlier_input_delay": earlier}
 
     def native_call(self, m):
-        return True, "no native replay for connect_async_requests"
+        if "async_shape" not in m:
+            return True, "symbolic counter-models of connect_async_requests are not replayed (the native search is)"
+        import warnings
+        from types import SimpleNamespace
+        import mosaik
+        from mosaik.scenario import SimGroup
+        from mosaik.simmanager import SimRunner
+        from mosaik.tiered_time import TieredInterval
+        from contracts.connect_native import _StubProxy, GROUP_SHAPES, expected_delay
+        warnings.simplefilter("ignore")
+        parents, si, di = GROUP_SHAPES[m["async_shape"]]
+        groups = []
+        for p_ in parents:
+            groups.append(SimGroup(parent=None if p_ is None else groups[p_]))
+        depth = lambda i: 1 if parents[i] is None else depth(parents[i]) + 1  # noqa: E731
+        w = mosaik.World({}, skip_greetings=True)
+        try:
+            w.main_group = groups[0]
+            a, b = SimRunner("A", _StubProxy(), depth=depth(si)), SimRunner("B", _StubProxy(), depth=depth(di))
+            w.sims.update({"A": a, "B": b})
+            zero, _ = expected_delay(parents, si, di, 0, False)
+            if m["earlier_input_delay"] is not None:
+                # an earlier data connection A -> B with that time shift
+                b.input_delays[a], _ = expected_delay(parents, si, di, m["earlier_input_delay"], False)
+            w.connect_async_requests(SimpleNamespace(_sid="A", _group=groups[si]), SimpleNamespace(_sid="B", _group=groups[di]))
+            ok = b.input_delays.get(a) == zero and a.successors.get(b) == zero and a.successors_to_wait_for.get(b) == zero
+            return ok, (f"connect_async_requests(A, B), groups {m['async_shape']}, earlier data connection with time shift "
+                        f"{m['earlier_input_delay']}: input_delays[B][A]={b.input_delays.get(a)!r} (expected {zero!r}: the agent must wait for "
+                        f"the step of the same time), successors={a.successors.get(b)!r}, to_wait_for={a.successors_to_wait_for.get(b)!r}")
+        finally:
+            w.loop.close()
 
 
 CONTRACTS = [ConnectOne(), ConnectAsync()]
